@@ -105,3 +105,107 @@ Theorem C14_example :
   /\ match mid_rapidity_mean true (z2 1 1) ex_mid with Ok (Some v) => this v = (13 # 4)%Q | _ => False end.
 Proof. exact c14_example. Qed.
 Print Assumptions C14_example.
+
+(* ------------------------------------------------------------------------------------------------------------
+   Tie to the source.  Gen/GenBulk.v is regenerated on every run from src/sparkx/BulkObservables.py
+   (tools/py2coq/gen_bulk.py, fail-closed): the bodies of _differential_yield, dNdy, dNdpT, dNdEta, dNdmT,
+   mid_rapidity_yield, mid_rapidity_mean_pT, mid_rapidity_mean_mT, statement by statement, over Model/BulkRt.v.
+   The theorems below say that the hand model the theorems above are about EQUALS the regenerated methods for all
+   arguments.  A particle of the regenerated methods is an abstract P observed through obs name p
+   (= getattr(p, name)()) and is_callable name; the model's particle is the value of these observations. *)
+From Coq Require Import String.
+From SX Require Import Model.BulkRt Gen.GenBulk Proofs.C14_Source.
+
+(* _differential_yield: argument checks for a tuple (number, number, n) / list of numbers, Histogram(bin_properties),
+   1 / bin_width, one histogram per event filled with quantity() of every particle (AttributeError when it is not
+   callable), no empty histogram after the last event, average, scale by the inverse widths *)
+Theorem C14_source_differential_yield :
+  forall usqrt ul (P : Type) (obs : string -> P -> cell) (is_callable : string -> bool) quantity b evs,
+  gen__differential_yield usqrt ul P obs is_callable quantity b evs
+  = differential_yield usqrt ul (is_callable quantity) b (map (map (obs quantity)) evs).
+Proof. exact source_differential_yield. Qed.
+Print Assumptions C14_source_differential_yield.
+
+(* the four spectra: which Particle method is binned and the default binning when none is given *)
+Theorem C14_source_dNdy :
+  forall usqrt ul (P : Type) (obs : string -> P -> cell) (is_callable : string -> bool) ob evs,
+  gen_dNdy usqrt ul P obs is_callable ob evs
+  = differential_yield usqrt ul (is_callable "rapidity"%string) (bins_or ob (tuple_bins (-2) 2 11)) (map (map (obs "rapidity"%string)) evs).
+Proof. exact source_dNdy. Qed.
+Print Assumptions C14_source_dNdy.
+
+Theorem C14_source_dNdpT :
+  forall usqrt ul (P : Type) (obs : string -> P -> cell) (is_callable : string -> bool) ob evs,
+  gen_dNdpT usqrt ul P obs is_callable ob evs
+  = differential_yield usqrt ul (is_callable "pT_abs"%string) (bins_or ob (tuple_bins 0 4 11)) (map (map (obs "pT_abs"%string)) evs).
+Proof. exact source_dNdpT. Qed.
+Print Assumptions C14_source_dNdpT.
+
+Theorem C14_source_dNdEta :
+  forall usqrt ul (P : Type) (obs : string -> P -> cell) (is_callable : string -> bool) ob evs,
+  gen_dNdEta usqrt ul P obs is_callable ob evs
+  = differential_yield usqrt ul (is_callable "pseudorapidity"%string) (bins_or ob (tuple_bins (-2) 2 11)) (map (map (obs "pseudorapidity"%string)) evs).
+Proof. exact source_dNdEta. Qed.
+Print Assumptions C14_source_dNdEta.
+
+Theorem C14_source_dNdmT :
+  forall usqrt ul (P : Type) (obs : string -> P -> cell) (is_callable : string -> bool) ob evs,
+  gen_dNdmT usqrt ul P obs is_callable ob evs
+  = differential_yield usqrt ul (is_callable "mT"%string) (bins_or ob (tuple_bins 0 4 11)) (map (map (obs "mT"%string)) evs).
+Proof. exact source_dNdmT. Qed.
+Print Assumptions C14_source_dNdmT.
+
+(* mid_rapidity_yield with a number as y_width: the width check, the empty sample, the callable test on the first
+   particle of the first non-empty event, the count of -y_width/2 <= quantity() <= y_width/2 over all events,
+   the division by the number of events; anything that is not an int or a float as y_width: TypeError *)
+Theorem C14_source_mid_yield :
+  forall (P : Type) (obs : string -> P -> cell) (is_callable : string -> bool) w quantity evs,
+  gen_mid_rapidity_yield P obs is_callable (WNum w) quantity evs
+  = mid_rapidity_yield (is_callable quantity) w (map (map (obs quantity)) evs)
+  /\ gen_mid_rapidity_yield P obs is_callable WOther quantity evs = Err TypeError.
+Proof. exact (fun P obs ic w q evs => conj (source_mid_yield P obs ic w q evs) (source_mid_yield_type P obs ic q evs)). Qed.
+Print Assumptions C14_source_mid_yield.
+
+(* mid_rapidity_mean_pT / _mT: the same checks and window; per event the sum of pT_abs() / mT() and the count inside
+   the window, the per-event mean only for events with a non-empty window, the division by the number of such events *)
+Theorem C14_source_mid_mean_pT :
+  forall (P : Type) (obs : string -> P -> cell) (is_callable : string -> bool) w quantity evs,
+  gen_mid_rapidity_mean_pT P obs is_callable (WNum w) quantity evs
+  = mid_rapidity_mean (is_callable quantity) w (map (map (fun p => (obs quantity p, obs "pT_abs"%string p))) evs).
+Proof. exact source_mid_mean_pT. Qed.
+Print Assumptions C14_source_mid_mean_pT.
+
+Theorem C14_source_mid_mean_mT :
+  forall (P : Type) (obs : string -> P -> cell) (is_callable : string -> bool) w quantity evs,
+  gen_mid_rapidity_mean_mT P obs is_callable (WNum w) quantity evs
+  = mid_rapidity_mean (is_callable quantity) w (map (map (fun p => (obs quantity p, obs "mT"%string p))) evs).
+Proof. exact source_mid_mean_mT. Qed.
+Print Assumptions C14_source_mid_mean_mT.
+
+Theorem C14_source_mid_mean_type :
+  forall (P : Type) (obs : string -> P -> cell) (is_callable : string -> bool) quantity evs,
+  gen_mid_rapidity_mean_pT P obs is_callable WOther quantity evs = Err TypeError
+  /\ gen_mid_rapidity_mean_mT P obs is_callable WOther quantity evs = Err TypeError.
+Proof. exact source_mid_mean_type. Qed.
+Print Assumptions C14_source_mid_mean_type.
+
+(* defaults of y_width and quantity *)
+Theorem C14_source_mid_defaults :
+  gen_mid_rapidity_yield_default_y_width = 1%Qc /\ gen_mid_rapidity_yield_default_quantity = "rapidity"%string
+  /\ gen_mid_rapidity_mean_pT_default_y_width = 1%Qc /\ gen_mid_rapidity_mean_pT_default_quantity = "rapidity"%string
+  /\ gen_mid_rapidity_mean_mT_default_y_width = 1%Qc /\ gen_mid_rapidity_mean_mT_default_quantity = "rapidity"%string.
+Proof. exact source_mid_defaults. Qed.
+Print Assumptions C14_source_mid_defaults.
+
+(* the read-only wrapper: reads pass through, the list mutators only raise *)
+Theorem C14_source_wrapper :
+  (forall m, In m gen_wrapper_reads -> In m ["__getitem__"; "__len__"; "__iter__"; "__repr__"]%string)
+  /\ (forall m, In m ["__setitem__"; "append"; "extend"; "insert"; "remove"; "pop"; "clear"]%string -> In m gen_wrapper_blocked).
+Proof. exact source_wrapper. Qed.
+Print Assumptions C14_source_wrapper.
+
+(* non-vacuity: the regenerated methods evaluated on the sample of C14_example (same numbers), on an attribute that
+   is not callable, on a zero width, on a y_width that is not a number, on the default binning of dNdpT *)
+Theorem C14_source_example : source_example_stmt.
+Proof. exact source_example. Qed.
+Print Assumptions C14_source_example.
